@@ -495,8 +495,32 @@ def order_tainted_iterations(model, mods, modsets=None, paramsets=None):
     by_simple = {}
     for mname, mod in mods:
         for q, f in mod.funcs.items():
-            by_simple.setdefault(q.split(".")[-1], []).append((mname, q, f))
-    builders = {}           # simple name -> description
+            by_simple.setdefault(q.split(".")[-1], []).append((mname, q))
+
+    def resolve(call, mname, q):
+        """(module, qualname) of the package function a call denotes: a nested def of the calling function, a function of the calling module, or -
+        for dotted names (cij.io.apply_default_config) - the only function of that simple name in the package; else None"""
+        if not isinstance(call, ast.Call):
+            return None
+        mod_ = dict(mods)[mname]
+        if isinstance(call.func, ast.Name):
+            nm = call.func.id
+            scope = q
+            while True:
+                if f"{scope}.{nm}" in mod_.funcs:
+                    return (mname, f"{scope}.{nm}")
+                if "." not in scope:
+                    break
+                scope = scope.rsplit(".", 1)[0]
+            if nm in mod_.funcs:
+                return (mname, nm)
+            cands = [c for c in by_simple.get(nm, []) if "." not in c[1]]
+            return cands[0] if len(cands) == 1 and nm in mod_.imports else None
+        nm = (dotted_name(call.func) or "").split(".")[-1]
+        cands = [c for c in by_simple.get(nm, []) if "." not in c[1]]
+        return cands[0] if nm and len(cands) == 1 and isinstance(call.func, ast.Attribute) and not (isinstance(call.func.value, ast.Name) and call.func.value.id in ("self", "cls")) else None
+
+    builders = {}           # (module, qualname) -> description
     for mname, mod in mods:
         psets = {q_: v for (m_, q_), v in paramsets.items() if m_ == mname}
         for q, loop, desc in unordered_loops(mod, modsets.get(mname, ()), psets):
@@ -505,26 +529,33 @@ def order_tainted_iterations(model, mods, modsets=None, paramsets=None):
                      and isinstance(st.targets[0].value, ast.Name)}
             returned = {r.value.id for r in ast.walk(f) if isinstance(r, ast.Return) and isinstance(r.value, ast.Name)}
             if keyed & returned:
-                builders[q.split(".")[-1]] = f"{mname}:{q} fills it in the iteration order of {desc}"
+                builders[(mname, q)] = f"{mname}:{q} fills it in the iteration order of {desc}"
     changed = True
     while changed:          # functions that return the result of a builder
         changed = False
         for mname, mod in mods:
             for q, f in mod.funcs.items():
-                simple = q.split(".")[-1]
-                if simple in builders:
+                if (mname, q) in builders:
                     continue
-                local = {st.targets[0].id for st in ast.walk(f) if isinstance(st, ast.Assign) and len(st.targets) == 1 and isinstance(st.targets[0], ast.Name)
-                         and isinstance(st.value, ast.Call) and (dotted_name(st.value.func) or "").split(".")[-1] in builders}
-                for r in ast.walk(f):
-                    if isinstance(r, ast.Return) and r.value is not None and ((isinstance(r.value, ast.Call) and (dotted_name(r.value.func) or "").split(".")[-1] in builders)
-                                                                              or (isinstance(r.value, ast.Name) and r.value.id in local)):
-                        builders[simple] = builders[(dotted_name(r.value.func) or "").split(".")[-1]] if isinstance(r.value, ast.Call) else next(iter(builders.values()))
-                        changed = True
-                        break
+                own = [x for x in ast.walk(f) if not any(x in ast.walk(g) for qq, g in mod.funcs.items() if qq != q and qq.startswith(q + "."))]
+                local = {st.targets[0].id: resolve(st.value, mname, q) for st in own if isinstance(st, ast.Assign) and len(st.targets) == 1
+                         and isinstance(st.targets[0], ast.Name) and resolve(st.value, mname, q) in builders}
+                for r in own:
+                    if isinstance(r, ast.Return) and r.value is not None:
+                        tgt = resolve(r.value, mname, q) if isinstance(r.value, ast.Call) else (local.get(r.value.id) if isinstance(r.value, ast.Name) else None)
+                        if tgt in builders:
+                            builders[(mname, q)] = builders[tgt]
+                            changed = True
+                            break
     if not builders:
         return []
-    is_builder_call = lambda v: isinstance(v, ast.Call) and (dotted_name(v.func) or "").split(".")[-1] in builders
+    ctx_fn = {}
+
+    def is_builder_call(v, mname=None, q=None):
+        return isinstance(v, ast.Call) and resolve(v, mname or ctx_fn["m"], q or ctx_fn["q"]) in builders
+
+    def why_of(v):
+        return builders[resolve(v, ctx_fn["m"], ctx_fn["q"])]
     tainted_attrs = {}      # (module, class) -> {attr: why}
     for mname, mod in mods:
         for q, f in mod.funcs.items():
@@ -533,8 +564,8 @@ def order_tainted_iterations(model, mods, modsets=None, paramsets=None):
             cls = q.rsplit(".", 1)[0]
             for st in ast.walk(f):
                 if isinstance(st, ast.Assign) and len(st.targets) == 1 and isinstance(st.targets[0], ast.Attribute) and isinstance(st.targets[0].value, ast.Name) \
-                        and st.targets[0].value.id == "self" and is_builder_call(st.value):
-                    tainted_attrs.setdefault((mname, cls), {})[st.targets[0].attr] = builders[(dotted_name(st.value.func) or "").split(".")[-1]]
+                        and st.targets[0].value.id == "self" and is_builder_call(st.value, mname, q):
+                    tainted_attrs.setdefault((mname, cls), {})[st.targets[0].attr] = builders[resolve(st.value, mname, q)]
     out = []
     for mname, mod in mods:
         for q, f in mod.funcs.items():
@@ -555,8 +586,8 @@ def order_tainted_iterations(model, mods, modsets=None, paramsets=None):
                     return attrs[e.attr]
                 if isinstance(e, ast.Name) and e.id in local:
                     return local[e.id]
-                if is_builder_call(e):
-                    return builders[(dotted_name(e.func) or "").split(".")[-1]]
+                if is_builder_call(e, mname, q):
+                    return builders[resolve(e, mname, q)]
                 return None
             stmts = sorted([st for st in ast.walk(f) if isinstance(st, ast.Assign)], key=lambda st: (st.lineno, st.col_offset))
             for st in stmts:
@@ -572,7 +603,7 @@ def order_tainted_iterations(model, mods, modsets=None, paramsets=None):
                     if isinstance(it, ast.Call) and isinstance(it.func, ast.Attribute) and it.func.attr in ("items", "keys", "values") and not it.args:
                         it = it.func.value
                     why = root_why(it)
-                    if why and not (q.split(".")[-1] in builders):
+                    if why and (mname, q) not in builders:
                         out.append((mname, mod, q, n, f"{src(n.iter)[:50]} ({why})"))
     return out
 
